@@ -9,13 +9,19 @@ if st:
     print("refusing: /repo working tree is not clean:\n" + st); sys.exit(2)
 subprocess.run(["git", "-C", "/repo", "apply", os.path.join(d, "patch.diff")], check=True)
 res = {}
+import shutil
 try:
     for pid in pids:
         t0 = time.time()
+        ev = f"/verif/evidence/{pid}.json"
+        if os.path.exists(ev):
+            shutil.copy(ev, ev + ".keep")   # the evidence of the UNCHANGED tree must survive a seeded run
         p = subprocess.run(["python3", "tools/check.py", pid, "--tier", "quick"], cwd="/verif", capture_output=True, text=True)
         lines = [l for l in p.stdout.split("\n") if l.startswith(("VIOLATION", "KNOWN-FINDING", "OK"))]
         res[pid] = {"rc": p.returncode, "lines": lines, "stderr_tail": p.stderr[-600:], "wall_s": round(time.time() - t0, 1)}
         print(pid, p.returncode, lines, p.stderr[-300:].replace("\n", " | "))
+        if os.path.exists(ev + ".keep"):
+            shutil.move(ev + ".keep", ev)
 finally:
     subprocess.run(["git", "-C", "/repo", "checkout", "--", "."], check=True)
 path = os.path.join(d, "detection.json")
